@@ -63,7 +63,7 @@ DELIVERABLES, all in %(wt)s/OUT/ :
    equivalent input), not compare against numbers recorded from the unchanged build.
  - meta.json : {"property": "%(pid)s", "summary": "<what was changed, where>", "needs_to_manifest": "<the specific ingredient(s)>",
    "why_tests_pass": "<why the suite does not notice>", "how_demo_was_run": "<commands>", "clause": "<which part of the property>"}.
-Before you finish: verify (a) suite passes with the change, (b) demo fails with the change, (c) `git stash` / reverse-apply the change,
-rebuild, demo passes, then re-apply the change so that the worktree ends WITH your change applied. Leave the worktree with the change applied and OUT/ complete.
+Before you finish: verify (a) suite passes with the change, (b) demo fails with the change, (c) reverse-apply the change (`git apply -R OUT/patch.diff`; NEVER use `git stash`:
+stashes are shared between all worktrees of the repository and other people work in theirs), rebuild, demo passes, then re-apply the change (`git apply OUT/patch.diff`) so that the worktree ends WITH your change applied. Leave the worktree with the change applied and OUT/ complete.
 Your final message: three or four lines saying what you changed and what it needs to manifest.""" % {
     'wt': wt, 'pid': pid, 'prop': json.dumps(prop, indent=1), 'prior': '\n'.join(prior) or '- (none yet)'})
